@@ -690,7 +690,7 @@ func http1SurplusDecidedOnCounts(c *Ctx, rule, key string) {
 			walk(b.Succs[1], b, learn(ifi.Cond, false, f, helperOK), val)
 			return
 		}
-		if _, isRet := last.(*ssa.Return); isRet {
+		if _, isRet := last.(*ssa.Return); isRet && isReturn(last) {
 			return
 		}
 		for _, s := range b.Succs {
